@@ -217,6 +217,15 @@ ROUND8 = {
  "C19": "Current databases also created from hand-written DDL (lower-case constraint keyword, bare / double-quoted names, parent spelled in another case); the names a pattern must remove are those of the database, not of Atlas' own inspection (one defect repaired).",
  "C20": "Sub-check plan-twice-edit-pairs: a dropped indexed column next to every other index / foreign-key change of the table, planned twice from the same change objects.",
 }
+ROUND9 = {
+ "C01": "The modify-default edit also changes only the letter case of a string default.",
+ "C04": "MySQL: keys that take their columns with them (a table has column r<j> only while it has a key to table j): exhaustive and sampled.",
+ "C05": "Sub-check cli-parent-rebuild-url-schemes: schema apply through the CLI with enforced foreign keys on sqlite:// and libsql+file:// URLs, parent rebuilt, child rows with CASCADE / SET NULL.",
+ "C07": "Sub-check serial-over-hostile-column-name (one defect repaired).",
+ "C13": "Sub-check new-violation-next-to-an-old-one: a new foreign-key violation in the same or another child table of a parent that already has an orphan row, file and all mode.",
+ "C15": "PostgreSQL expression index parts with an operator class and / or a non-default NULLS ordering; column parts with a non-default NULLS ordering.",
+ "C18": "The initial file creates a trigger (on a table no step touches): files older than the lint window are replayed with it.",
+}
 
 PENDING_REASON = "check not built yet in this session (planned in DESIGN.md section 4; will be claimed once its quick check is green and sensitivity-tested)"
 
@@ -256,6 +265,8 @@ def main():
                 text = text + " Added after the seventh round: " + ROUND7[pid]
             if pid in ROUND8:
                 text = text + " Added after the eighth round: " + ROUND8[pid]
+            if pid in ROUND9:
+                text = text + " Added after the ninth round: " + ROUND9[pid]
             m["checks"].append({
               "property_id": pid,
               "quick_cmd": "./check %s quick" % pid,
